@@ -581,7 +581,7 @@ func (c *converter) simpleFieldChain(f *ast.Field) []*ast.Field {
 		// instead of returning nil, so a single-line struct value still
 		// aligns in the table (a multi-line value breaks the segment via
 		// the leaf checks / table machinery below).
-		chain = chain[:1]
+		chain = collapsiblePrefix(chain)
 	}
 	leaf := chain[len(chain)-1]
 	if leaf.Value == nil ||
@@ -589,6 +589,29 @@ func (c *converter) simpleFieldChain(f *ast.Field) []*ast.Field {
 		HasDocComment(leaf.Value) ||
 		hasCommentAt(leaf, PosSuffix) {
 		return nil
+	}
+	return chain
+}
+
+// collapsiblePrefix returns the longest prefix of a non-collapsible
+// chain that can still be rendered as a composite key: the chain is cut
+// before the first Field that carries comments or a Newline RelPos, and
+// after the first Field that carries attributes. The leaf of the prefix
+// then has the rest of the chain as its (braced) value. Cutting there,
+// rather than after the head, gives the layout that a second formatting
+// pass with struct inlining would produce from the braced output.
+func collapsiblePrefix(chain []*ast.Field) []*ast.Field {
+	f := chain[0]
+	if hasCommentAt(f, PosPrefix) || hasCommentAt(f, PosSuffix) {
+		return chain[:1]
+	}
+	for i, cf := range chain {
+		if i > 0 && (len(ast.Comments(cf)) > 0 || cf.Pos().IsNewline()) {
+			return chain[:i]
+		}
+		if len(cf.Attrs) > 0 {
+			return chain[:i+1]
+		}
 	}
 	return chain
 }
